@@ -4,9 +4,11 @@ import CLModel.Ops.C20
 import CLModel.Ops.C01
 import CLModel.Ops.C04
 import CLModel.Ops.C05
+import CLModel.Ops.C19
+import CLModel.Ops.C03
 
 def allOps : List (String × (List String → String)) :=
-  Ops.Rx.ops ++ Ops.C20.ops ++ Ops.C01.ops ++ Ops.C04.ops ++ Ops.C05.ops
+  Ops.Rx.ops ++ Ops.C20.ops ++ Ops.C01.ops ++ Ops.C04.ops ++ Ops.C05.ops ++ Ops.C19.ops ++ Ops.C03.ops
 
 def handle (line : String) : String :=
   match ((Proto.splitChars (Char.ofNat 32) (line.toList.filter (fun c => c != (Char.ofNat 10) && c != (Char.ofNat 13)))).map String.ofList).filter (· ≠ "") with
